@@ -118,6 +118,15 @@ Definition p_fstat (w : world) (i : N) : res statinfo :=
   | Some e => Err (XOS e)
   | None => match node w i with Some n => Ok (stat_of i n) | None => Err (XOS ENOENT) end
   end.
+(* os.path.lexists(path): the name exists in its directory, whatever it points to *)
+Definition p_lexists (w : world) (path : list N) : bool :=
+  match resolve w (dirname path) with
+  | Ok i => match node w i with
+            | Some (IDir _ _ ents) => match lookup_name ents (basename path) with Some _ => true | None => false end
+            | _ => false
+            end
+  | Err _ => false
+  end.
 (* reading the whole content of an open regular file *)
 Definition p_read (w : world) (i : N) : res (list N) :=
   match fault w PRead i with
